@@ -136,6 +136,33 @@ def c01_wedge_gen(rng, tier):
             reply = struct.pack(">HHHHHH", 0, 0x8180, 1, 1, 0, 0) + name + b"\0" + struct.pack(">HH", 1, 1) + \
                 b"\xc0\x0c" + struct.pack(">HHIH", 1, 1, 60, 4) + bytes([10, 0, 0, 1])
             out.append("wh%d cfg=%s l=%s mode=httpraw bad=%s q=%s up=reply:%s" % (i, cfg, l, gens.hx(raw), gens.hx(q), gens.hx(reply)))
+    # a DoH GET parameter whose base64 text carries percent-encoded line breaks: Go's base64 decoder skips CR / LF, so
+    # the decoded message is SHORTER than DecodedLen of the text; a query that is cut short (its last 1..4 octets missing)
+    # cannot be decoded and must be rejected with 400 - not completed with whatever the recycled buffer held (defect D24)
+    k = 0
+    for l in ("http-get", "fasthttp-get"):
+        for cut in (1, 2, 3, 4):
+            for brk in ("%0A", "%0D%0A", "%0a"):
+                i = n + 5000 + k
+                k += 1
+                name = gens.raw_name([b"okg%d" % i, b"test"])
+                q = struct.pack(">HHHHHH", rng.randrange(65536), 0x0100, 1, 0, 0, 0) + name + b"\0" + struct.pack(">HH", 1, 1)
+                reply = struct.pack(">HHHHHH", 0, 0x8180, 1, 1, 0, 0) + name + b"\0" + struct.pack(">HH", 1, 1) + \
+                    b"\xc0\x0c" + struct.pack(">HHIH", 1, 1, 60, 4) + bytes([10, 0, 0, 1])
+                vq = struct.pack(">HHHHHH", rng.randrange(65536), 0x0100, 1, 0, 0, 0) + gens.raw_name([b"victim%d" % i, b"example"]) + \
+                    b"\0" + struct.pack(">HH", 1, 1)
+                out.append("wg%d cfg=%s l=%s@/dns-query?#%s mode=get expect=http-400 bad=%s q=%s up=reply:%s" % (
+                    i, cfg, l, brk * rng.choice([4, 8, 12]), gens.hx(vq[:len(vq) - cut]), gens.hx(q), gens.hx(reply)))
+    # COMPLETE, well-framed HTTP requests with unusual query strings / bodies: the listener must ANSWER each of them (any
+    # status) - a handler that loops or blocks on them leaves the connection open and silent (seed C01-N)
+    for j, raw in enumerate(http_complete_catalogue(rng)):
+        for l in ("http-post", "fasthttp-post"):
+            i = n + 3000 + 2 * j + (l == "fasthttp-post")
+            name = gens.raw_name([b"okc%d" % i, b"test"])
+            q = struct.pack(">HHHHHH", rng.randrange(65536), 0x0100, 1, 0, 0, 0) + name + b"\0" + struct.pack(">HH", 1, 1)
+            reply = struct.pack(">HHHHHH", 0, 0x8180, 1, 1, 0, 0) + name + b"\0" + struct.pack(">HH", 1, 1) + \
+                b"\xc0\x0c" + struct.pack(">HHIH", 1, 1, 60, 4) + bytes([10, 0, 0, 1])
+            out.append("wc%d cfg=%s l=%s mode=httpraw expect=reply bad=%s q=%s up=reply:%s" % (i, cfg, l, gens.hx(raw), gens.hx(q), gens.hx(reply)))
     # raw octets on the TLS-based stream listeners: cleartext HTTP / DNS frames / garbage / a truncated ClientHello where a
     # TLS handshake is expected
     hello = b"\x16\x03\x01\x00\xc8\x01\x00\x00\xc4\x03\x03" + bytes(rng.randrange(256) for _ in range(60))
@@ -204,8 +231,31 @@ def http_raw_catalogue(rng):
     return cat
 
 
+def http_complete_catalogue(rng):
+    import base64
+    # a query for a name the fake upstream does not know would wait for the 6 s deadline: reject-free, unsupported
+    # (QDCOUNT = 0) queries are answered NOTIMP at once; so are the 4xx cases
+    msg = b"\x12\x34\x01\x00\x00\x00\x00\x00\x00\x00\x00\x00"
+    b64 = base64.urlsafe_b64encode(msg).rstrip(b"=")
+    hdr = b" HTTP/1.1\r\nHost: x\r\nAccept: application/dns-message\r\nConnection: close\r\n\r\n"
+    qs = [b"&dns=" + b64, b"&&dns=" + b64, b"a=b&&dns=" + b64, b"a=b&dns=" + b64 + b"&", b"dns=" + b64 + b"&&", b"&", b"&&&&",
+          b"a=b&&", b"a&&b", b"=", b"=&=", b"dns", b"dns&dns=" + b64, b"dns=&dns=" + b64, b"%26dns=" + b64, b";dns=" + b64,
+          b"&" * 5000, b"&" * 5000 + b"dns=" + b64, b"dns=" + b64 + b"%0A%0A%0A", b"dns=" + b"%0A" * 40, b"dns=" + b64 + b"===",
+          b"x=" + b"y" * 3000 + b"&&dns=" + b64, b"dns==" + b64, b"DNS=" + b64, b"dns=" + b64 + b"#frag&"]
+    cat = [b"GET /dns-query?" + q + hdr for q in qs]
+    ct = b"Content-Type: application/dns-message\r\n"
+    for body in (msg, b"", b"\0", b"\xff" * 11, b"\xff" * 600):
+        cat.append(b"POST /dns-query HTTP/1.1\r\nHost: x\r\nConnection: close\r\n" + ct + b"Content-Length: %d\r\n\r\n" % len(body) + body)
+    return cat
+
+
 def wedge_oracle(line, res):
     f = gens.fields(res)
+    if gens.fields(line).get("expect") == "http-400" and res.startswith("bad=") and f.get("bad") != "http-400":
+        return ("a DoH GET parameter that does not decode to a DNS message (a query cut short, line breaks in the base64 text) "
+                "was not rejected with 400: " + res)
+    if gens.fields(line).get("expect") == "reply" and res.startswith("bad=") and f.get("bad") != "reply":
+        return "a complete, well-framed HTTP request got no reply at all within 3 s (connection %s): %s" % (f.get("bad"), res)
     if res.startswith("bad=") and (f.get("st") != "ok" or f.get("n") != "1"):
         return "after malformed input on the listener a valid query was not answered exactly once: " + res
     return None
